@@ -57,7 +57,15 @@ func TestVerif_C07_Table(t *testing.T) {
 	thorough := vh.Thorough()
 	for n := 0; n <= 255; n++ {
 		row := c07Row{N: n, Go: CalculateQuorum(n), Ref: 2*n/3 + 1}
-		sol, err := vh.EvalInt(c.Solidity.Quorum.Expr, map[string]*big.Int{c.Solidity.Quorum.Param: big.NewInt(int64(n))})
+		sol, err := c.SolQuorum(n)
+		if err != nil && vh.IsAbort(err) {
+			// the Ethereum contract refuses to compute a threshold for this size: no VAA of such a set can ever be accepted
+			pl.Record(row, vh.Outcome{NonTrivial: n >= 1})
+			if pl.Violate(vh.V("C07/sol-quorum-reverts", "n=%d: Messages.sol quorum(%d) reverts (%v); the node completes a VAA of that set at %d signatures", n, n, err, row.Go), row) {
+				continue
+			}
+			return
+		}
 		if err != nil {
 			pl.Violate(vh.V("harness/extractor", "solidity quorum: %v", err), row)
 			return
